@@ -307,6 +307,16 @@ func cmdCheck(args []string) int {
 	for _, l := range knownLines {
 		fmt.Println(l)
 	}
+	if os.Getenv("GOVC_TIMES") != "" {
+		sorted := append([]*Obligation{}, all...)
+		sort.Slice(sorted, func(i, j int) bool { return sorted[i].TimeS > sorted[j].TimeS })
+		for i, o := range sorted {
+			if i >= 8 {
+				break
+			}
+			fmt.Fprintf(os.Stderr, "  %.2fs %s %s [%s]\n", o.TimeS, o.Status, o.Name, o.Backend)
+		}
+	}
 	// bounded stand-ins
 	var bounded []map[string]any
 	bv := runBounded(*repo, *verif, replayDir, *prop, *tier, known, &bounded)
